@@ -4,7 +4,7 @@ from __future__ import annotations
 import ast
 
 from ..algebra import canon, is_const, linear_in, same
-from ..interp import Interp, SELF, Event, Path, contains, show, strip_typed, walk
+from ..interp import decided, Interp, SELF, Event, Path, contains, show, strip_typed, walk
 from ..model import AnalysisError
 from . import tdvp, util
 
@@ -181,10 +181,13 @@ def dmrg_protocol(ctx) -> None:
         okc = False
         if st:
             v = strip_typed(st[0].value)
+            d = decided(p, flag, st[0].ncond)
             if v[0] == "ifexp":
                 a = tdvp._off(v[2])
                 b = tdvp._off(v[3])
                 okc = canon(v[1]) == canon(flag) and a == 1 and b == 0
+            elif d is not None:
+                okc = tdvp._off(v) == (1 if d else 0)   # `idx + 1 if flag else idx` as two paths
         ctx.ob("CENTER", "DMRG centre flag", (st[0] if st else e).loc(), okc,
                "orthogonality_center ← idx+1 if flag else idx with the flag given to minimize_energy_pair" if okc else
                "the centre recorded after the two-site minimisation does not follow the orth_center_right flag",
